@@ -7,6 +7,8 @@ from . import common, dsched, shims
 def singleton_run(klass_name, nthreads, policy, max_steps=400):
   import miros.singleton as ms
   sched = dsched.Sched(policy, max_steps)
+  # the decorator's state is plain Python attributes: the interpreter may switch threads between any two lines of it
+  sched.trace_funcs = {("singleton.py", "*")}
   made = []
   res = {}
   with shims.installed(sched) as ma:
@@ -108,6 +110,9 @@ def registry_run(progs, policy, max_steps=1500):
   """progs: {thread: [op, ...]} with ops ["append", name] ["attr", name] ["ev_name", name] ["ev_num", name] ["name_for", name] ["inner", name]"""
   import miros.event as mev
   sched = dsched.Sched(policy, max_steps)
+  # besides the registry's dictionary operations, every source line of the registry's own methods is a pre-emption point
+  # (state kept next to the dictionary - a cache, a reverse map - is plain Python data)
+  sched.trace_funcs = {("event.py", "*")}
   old_signals = mev.signals
   saved = {}
   for nm, shim in (("Lock", shims.SLock), ("RLock", shims.SRLock)):
